@@ -288,8 +288,13 @@ func (p *Program) declResults(prop string, cfg *PropConfig, results []*FuncResul
 	}
 	// sweeps
 	for _, pk := range cfg.Sweep {
-		// "pkg" or "pkg:file1.go,file2.go"
+		// "pkg" or "pkg:file1.go,file2.go"; "pkg+generic": bodies of generic functions without contract as well
 		var files map[string]bool
+		generic := false
+		if strings.HasSuffix(pk, "+generic") {
+			generic = true
+			pk = strings.TrimSuffix(pk, "+generic")
+		}
 		if i := strings.Index(pk, ":"); i >= 0 {
 			files = map[string]bool{}
 			for _, f := range strings.Split(pk[i+1:], ",") {
@@ -309,7 +314,7 @@ func (p *Program) declResults(prop string, cfg *PropConfig, results []*FuncResul
 			}
 			if fn.TypeParams().Len() > 0 && len(fn.TypeArgs()) == 0 {
 				// generic body: verified through its contract when it has one
-				if p.contracts.Funcs[name] == nil {
+				if p.contracts.Funcs[name] == nil && !generic {
 					continue
 				}
 			}
